@@ -1156,6 +1156,11 @@ func vspRunWithWatchdog(line string) string {
 		return r
 	case <-time.After(75 * time.Second):
 		vspTheWorld = nil
+		if out := os.Getenv("VERIF_OUT"); out != "" {
+			buf := make([]byte, 1<<22)
+			n := runtime.Stack(buf, true)
+			_ = os.WriteFile(out+".hang", buf[:n], 0o644)
+		}
 		return "HARNESS-ERROR scenario watchdog (75s)"
 	}
 }
